@@ -59,7 +59,13 @@ def main():
     out = {}
     for i, succ in enumerate(inputs):
         # names whose hash order varies with the seed
-        names = [f"blk{j}" for j in range(len(succ))]
+        # (several shapes: a common prefix; distinct prefixes sharing a numeric suffix; one common
+        # suffix; doubled letters - orderings keyed on a part of the name tie on some of them)
+        L = "abcdefghijklmnopqrstuvwxyz"
+        names = [[f"blk{j}" for j in range(len(succ))],
+                 [f"{L[j % 26]}{j // 26}_{j % 3}" for j in range(len(succ))],
+                 [f"n{L[(j * 7) % 26]}{j}_1" for j in range(len(succ))],
+                 [f"{L[(j * 5) % 26] * 2}{(j * 7) % 4}x{j}" for j in range(len(succ))]][i % 4]
         scfg = export.mk_scfg(succ, names)
         try:
             scfg.restructure()
